@@ -671,11 +671,12 @@ class FileProcessTensor(BaseProcessTensor):
 
     def remove(self):
         """Delete the HDF5 file. """
-        self.close()
-        if self._removeable:
-            os.remove(self._filename)
-        else:
+        if not self._removeable:
+            # a refusal leaves the object (and an unfinished file's
+            # 'writing' flag) untouched
             raise FileExistsError("This process tensor file cannot be removed.")
+        self.close()
+        os.remove(self._filename)
 
     def set_initial_tensor(
             self,
